@@ -29,7 +29,8 @@ RULE = ("histories of lifecycle calls (setup / iterate / iterate_n(k) / run(0|1 
         "finalize) starting with setup: one engine object respecting the documented lifecycle (quick: sampled, length <= 6; thorough: "
         "also random up to length 40), two objects with non-overlapping live intervals, two objects with overlapping ones, calls on "
         "a released engine, iterate_n(k<=0) after completion, one RDScript object (quantity unit mol / µmol) set up on two engine objects "
-        "and again on the first, simulate_script on a run of ~2 s; scripts: 3 engines x grid/graph x 4 policies incl. species totals "
+        "and again on the first, simulate_script on a run of ~2 s, run(ms) slices timed on a simulation with 10^9 steps left, "
+        "iterate_n(k) with k around and at multiples of 1024; scripts: 3 engines x grid/graph x 4 policies incl. species totals "
         "below one molecule; non-trivial when the history has >= 3 calls; distinct by (scripts, calls)")
 ASSUMPTIONS = [
     "a call that prints nothing for 6 s (quick) on these tiny systems is a hang (reference runs take milliseconds)",
@@ -41,6 +42,8 @@ TRUSTED = ["life_child.py (sandboxed driver of the real engine)", "reference sta
 KEY_SHARED = "two-engines-share-native"
 KEY_UAF = "use-after-finalize"
 KEY_ITN0 = "iterate_n-nonpositive-resets-completion"
+KEY_SLICE = "run-slice-overrun"
+SLICE_MARGIN = 1.0      # seconds beyond the requested slice (one iteration of these systems takes microseconds)
 
 
 # ---------------------------------------------------------------------------------------------
@@ -138,7 +141,7 @@ def rand_call(rng, obj, live, pool_opt, scripts, allow_zero_n=False):
             scripts[p["idx"]] = len(scripts)
         return {"obj": obj, "call": "setup", "script": scripts[p["idx"]], "pool": p["idx"], "peek": True}
     if name == "iterate_n":
-        return {"obj": obj, "call": "iterate_n", "n": rng.choice([1, 2, 3, 7, 50, 1000]), "peek": live}
+        return {"obj": obj, "call": "iterate_n", "n": rng.choice([1, 2, 3, 7, 50, 1000, 1023, 1024, 1025, 2048, 4096]), "peek": live}
     if name in ("run0", "run1"):
         return {"obj": obj, "call": "run", "ms": 0 if name == "run0" else 1, "peek": live}
     c = {"obj": obj, "call": name}
@@ -209,7 +212,7 @@ def gen_history(rng, hid, cls, pool_by_opt, length):
         scripts[p["idx"]] = 0
         for obj in rng.choice([[0, 1, 0], [0, 1], [0, 0], [1, 0, 1]]):
             calls += [{"obj": obj, "call": "setup", "script": 0, "pool": p["idx"], "peek": True},
-                      {"obj": obj, "call": "iterate_n", "n": 1000, "peek": True}, {"obj": obj, "call": "get_output"},
+                      {"obj": obj, "call": "iterate_n", "n": rng.choice([1000, 1024, 2048]), "peek": True}, {"obj": obj, "call": "get_output"},
                       {"obj": obj, "call": "finalize"}]
     elif cls == "uaf":
         p = rng.choice(pool_by_opt[engines[0]])
@@ -225,7 +228,7 @@ def gen_history(rng, hid, cls, pool_by_opt, length):
         p = rng.choice(pool_by_opt[engines[0]])
         scripts[p["idx"]] = 0
         calls = [{"obj": 0, "call": "setup", "script": 0, "pool": p["idx"], "peek": True},
-                 {"obj": 0, "call": "iterate_n", "n": 100000, "peek": True}, {"obj": 0, "call": "is_complete"},
+                 {"obj": 0, "call": "iterate_n", "n": rng.choice([100000, 1024, 2048, 4096, 1025]), "peek": True}, {"obj": 0, "call": "is_complete"},
                  {"obj": 0, "call": "iterate_n", "n": rng.choice([0, -1]), "peek": True}, {"obj": 0, "call": "is_complete"},
                  {"obj": 0, "call": "iterate", "peek": True}, {"obj": 0, "call": "is_complete"}]
     inv = {v: k for k, v in scripts.items()}
@@ -290,6 +293,9 @@ def reference_machine(job, pool_by_idx, results):
                 if c["n"] >= 1:
                     s["n"] = min(before + c["n"], N)
             else:
+                if r.get("wall", 0.0) > c["ms"] / 1000.0 + SLICE_MARGIN:
+                    bad.append((i, KEY_SLICE, "run(%d) kept control for %.2f s (slice of %d ms + one iteration + margin %.1f s)" % (c["ms"], r["wall"], c["ms"], SLICE_MARGIN),
+                                r["wall"], c["ms"] / 1000.0))
                 # run: the number of iterations is whatever the clock allowed; read it off the native clock
                 t = r.get("T")
                 cand = [jj for jj, v in enumerate(T) if v == t and jj >= min(before, len(T) - 1)]
@@ -452,10 +458,61 @@ def long_oracle(r):
     return None
 
 
+def slice_job(rng, jid, option):
+    """a simulation with far more work than any slice: run(ms) must hand control back after about ms milliseconds"""
+    j = long_job(rng, jid, option, 0)
+    j["scripts"][0]["kw"]["t_max"] = 1.0e6          # 10^9 steps
+    j["slice"] = True
+    j["long"] = False
+    calls = [{"obj": 0, "call": "setup", "script": 0, "peek": True}]
+    for ms in [5, rng.choice([1, 2, 10]), rng.choice([20, 50]), 0, 5]:
+        calls.append({"obj": 0, "call": "run", "ms": ms, "peek": True})
+    calls += [{"obj": 0, "call": "is_complete"}, {"obj": 0, "call": "get_progress"}, {"obj": 0, "call": "finalize"}]
+    j["calls"] = calls
+    return j
+
+
+def slice_oracle(job, r):
+    bad = []
+    if r["status"] != "ok":
+        at = r["at"] if r["at"] is not None else len(r["results"])
+        c = job["calls"][at] if at < len(job["calls"]) else {"call": "end"}
+        if c["call"] == "run":
+            bad.append((KEY_SLICE, "run(%d) did not return within the stall limit on a simulation with 10^9 steps left (%s)" % (c["ms"], r["status"]), r["status"], "returns after about %d ms" % c["ms"]))
+        else:
+            bad.append(("hang:%s" % c["call"], "%s() did not return (%s)" % (c["call"], r["status"]), r["status"], "returns"))
+    tprev = 0.0
+    for c, x in zip(job["calls"], r["results"]):
+        if "raised" in x:
+            bad.append(("raised", "%s() raised %s" % (c["call"], x["raised"]), x["raised"], "no exception"))
+            break
+        if c["call"] == "run":
+            if x["wall"] > c["ms"] / 1000.0 + SLICE_MARGIN:
+                bad.append((KEY_SLICE, "run(%d) kept control for %.2f s on a simulation with plenty of work left (slice of %d ms + one iteration + margin %.1f s)"
+                            % (c["ms"], x["wall"], c["ms"], SLICE_MARGIN), x["wall"], c["ms"] / 1000.0))
+            if x.get("ret") is not True:
+                bad.append(("drive-return", "run(%d) reported completion with 10^9 steps left" % c["ms"], x.get("ret"), True))
+            if not (x.get("T", 0.0) > tprev):
+                bad.append(("run-progress", "run(%d) made no iteration" % c["ms"], x.get("T"), None))
+            tprev = x.get("T", tprev)
+        if c["call"] == "is_complete" and x.get("ret") is not False:
+            bad.append(("is-complete", "is_complete() is True with 10^9 steps left", x.get("ret"), False))
+    return bad
+
+
 def long_simulate(ctx, n, wall):
     rng = ctx.rng
     jobs = [long_job(rng, "long%d" % i, ["euler", "tauleap"][i % 2], wall) for i in range(n)]
-    res = lc.run_jobs(jobs, kind="plain", chunk=1, parallel=min(n, 4), stall=30)
+    sjobs = [slice_job(rng, "slice%d" % i, ["tauleap", "euler", "gillespie"][i % 3]) for i in range(n)]
+    res = lc.run_jobs(jobs + sjobs, kind="plain", chunk=1, parallel=min(2 * n, 6), stall=30)
+    for j in sjobs:
+        r = res[j["id"]]
+        case = {"job": {k: j[k] for k in ("id", "engines", "scripts", "calls", "slice")}}
+        ctx.case(("slice", j["id"], json.dumps(j["calls"])), nontrivial=True,
+                 sample={"op": "run-slices", "engine": j["engines"][0], "walls": [x.get("wall") for c, x in zip(j["calls"], r["results"]) if c["call"] == "run"]})
+        ctx.count("slice_jobs")
+        for key, what, impl, exp in slice_oracle(j, r):
+            ctx.violation(key, what, case, impl=impl, expected=exp)
     for j in jobs:
         r = res[j["id"]]
         case = {"job": {k: j[k] for k in ("id", "engines", "scripts", "calls", "long")}}
@@ -624,6 +681,11 @@ def impl_tf(job, c, pool_by_idx):
 def replay(ctx, rec):
     case = rec.get("case", rec)
     job = dict(case["job"])
+    if job.get("slice"):
+        job.setdefault("timeout", 40)
+        r = lc.run_jobs([job], kind="plain", parallel=1, stall=30)[str(job["id"])]
+        bad = slice_oracle(job, r)
+        return (not bad), {"walls": [x.get("wall") for c, x in zip(job["calls"], r["results"]) if c["call"] == "run"], "failures": [b[1] for b in bad]}
     if job.get("long"):
         job.setdefault("timeout", 40)
         r = lc.run_jobs([job], kind="plain", parallel=1, stall=30)[str(job["id"])]
